@@ -252,7 +252,7 @@ def requests(tr):
         for fd, c in p.clients.items():
             if c['pending'] > 0 and fd not in cur:
                 com, cells = p.args.get(c['id'], (None, []))
-                cur[fd] = dict(fd=fd, cid=c['id'], com=com, names=[x[0] for x in cells], start=p.i, exp=c['exp'], tele=c['tele'], outstart=len(outacc[fd]) + 0, cells=cells, devin=collections.defaultdict(bytes), to_at_start=c['to'])
+                cur[fd] = dict(fd=fd, cid=c['id'], com=com, names=[x[0] for x in cells], start=p.i, exp=c['exp'], tele=c['tele'], outstart=len(outacc[fd]) + 0, cells=cells, devin=collections.defaultdict(bytes), devout=collections.defaultdict(bytes), to_at_start=c['to'])
             elif fd in cur and c['pending'] > 0:
                 com, cells = p.args.get(c['id'], (None, []))
                 cur[fd]['cells'] = cells; cur[fd]['error'] = c['error']
@@ -260,6 +260,9 @@ def requests(tr):
         for fd, n in p.reads.items():
             if fd >= 2000 and n > 0:
                 for r in cur.values(): r['devin'][fd] += p.delivered.get(fd, {}).get('data', b'')[:n]
+        for fd2, w in p.writes.items():
+            if fd2 >= 2000 and w['data']:
+                for r in cur.values(): r['devout'][fd2] += w['data']
         for fd in list(cur):
             c = p.clients.get(fd)
             if c is None or c['pending'] <= 0:
@@ -431,6 +434,31 @@ def p_c12(tr, V, st):
             last[di] = (p.now, False)
 
 
+def p_c12_disconnect(tr, V, st):
+    """when an action is reported as timed out on a device that was connected, the daemon drops that connection in the same
+    pass (it never goes on using a session of unknown state): the descriptor of the device changes or the device is no longer connected"""
+    names = {b'd0': 0, b'd1': 1}
+    total = collections.defaultdict(int)        # bytes of client stream seen so far per fd
+    written = collections.defaultdict(bytes)
+    prev = {}
+    for p in tr:
+        newtext = {}
+        for fd, w in p.writes.items():
+            if fd < 2000: written[fd] += w['data']
+        for fd, c in p.clients.items():
+            stream = written[fd] + c['to']
+            newtext[fd] = stream[total[fd]:]; total[fd] = len(stream)
+        for fd, txt in newtext.items():
+            for m in re.finditer(rb'308 (d\d): (action timed out waiting for expected response|login timeout)', txt):
+                di = names.get(m.group(1))
+                if di is None or di not in prev or di not in p.devs: continue
+                st['C12 timeouts on connected devices'] += 1
+                was = prev[di]; now = p.devs[di]
+                if was.get('conn') == 2 and now.get('conn') == 2 and now.get('fd') == was.get('fd'):
+                    V.append(dict(sig='C12 connection kept after a script timed out on it', at=p.i, dev=di, text=m.group(0).decode()))
+        prev = {di: dict(d) for di, d in p.devs.items()}
+
+
 def p_c20(tr, V, st):
     """descriptor and child ledger on the system calls the real code issued: at every pass boundary the open
     descriptors are exactly one per live client plus one per device that is not NOT_CONNECTED; every fork is
@@ -495,3 +523,45 @@ def p_c08(tr, V, st):
 def _repo():
     import common
     return common.REPO
+
+
+VERB2COM = {b'on': 7, b'off': 10, b'cycle': 13, b'reset': 16, b'flash': 23, b'unflash': 25}
+
+
+def p_c02_wire(tr, V, st):
+    """a power request answered 102 really addressed every named node: between the request and its reply a line naming the
+    node's plug (its name, a range containing it, or `*`) was written to the node's device"""
+    reqs, _ = requests(tr)
+    cv = client_views(tr)
+    lastto = {fd: c['to'] for fd, c in tr[-1].clients.items()} if tr else {}
+    fd2dev = {}
+    for p in tr:
+        for di, d in p.devs.items():
+            if d.get('fd', -1) >= 0: fd2dev[d['fd']] = di
+    for fd, v in cv.items():
+        items, _ = split_out(v.cout + lastto.get(fd, b''))
+        replies = []
+        for ln, g, complete in attribute(v.cin, items):
+            rq = parse_req(ln)
+            if rq and complete and g and g[-1][1] in (102, 210, 103, 211): replies.append((rq, g[-1][1]))
+        mine = [r for r in reqs if r['fd'] == fd]
+        for r, (rq, code) in zip(mine, replies):
+            verb, targets, line = rq
+            if VERB2COM.get(verb) != r['com']:
+                break                          # attribution out of step (e.g. a client record reused): do not guess
+            if code != 102: continue
+            st['C02 successful power requests checked on the wire'] += 1
+            for node in set(targets):
+                di, pl = NODE2DEV.get(node, (None, None))
+                if di is None: continue
+                named = False
+                for dfd, data in r['devout'].items():
+                    if fd2dev.get(dfd) != di: continue
+                    for wl in wire_lines(data):
+                        t = wl.split()
+                        if len(t) < 2: continue
+                        try: names = [b'*'] if t[1] == b'*' else (expand_hl(t[1]) if b'[' in t[1] else [t[1]])
+                        except Exception: names = []
+                        if b'*' in names or pl in names: named = True
+                if not named:
+                    V.append(dict(sig='C02 success reported but a named node was never addressed on its device', at=r['end'], fd=fd, line=repr(line), node=repr(node), start=r['start']))
